@@ -48,13 +48,14 @@ import (
 // Binding of spec/System.tla (coverage extension CX3) to a CLUSTER of real
 // nodes in one process. Every node is: a real DeterministicSharder over the
 // peer listeners' addresses, two real Routers (incoming / peer) whose real
-// batch handlers are mounted behind the real middleware on loopback HTTP
-// servers, a real InMemCollector with the real DeterministicSampler at rate 2
-// on a fake clock, and two real DirectTransmissions on fake clocks. Clients
-// POST msgpack or JSON batches to a node's incoming listener; a node's peer
-// transmission POSTs its (zstd-compressed) msgpack batches to the owner's peer
-// listener, i.e. the hop is the real wire path; upstream transmissions POST to
-// one fake Honeycomb that decodes the bytes it receives with their types.
+// batch handlers are mounted behind the real middleware as Router.LnS mounts
+// them, a real InMemCollector with the real DeterministicSampler at rate 2 on
+// a fake clock, and two real DirectTransmissions on fake clocks. Clients post
+// msgpack or JSON batches to a node's incoming handler chain (in-process); a
+// node's peer transmission POSTs its (zstd-compressed) msgpack batches to the
+// owner's peer listener on loopback, i.e. the hop is the real wire path;
+// upstream transmissions POST to one fake Honeycomb that decodes the bytes it
+// receives with their types.
 // ---------------------------------------------------------------------------
 
 const (
@@ -502,7 +503,6 @@ type cx3Node struct {
 	inbox []map[string]any
 	decs  []map[string]any
 	buf   map[string]map[int]bool // real trace id -> buffered event ids
-	stop  []func()
 }
 
 func (n *cx3Node) pending(which string) int {
